@@ -54,20 +54,20 @@ def stepLine (line : String) : String :=
   | ["sim", c, s, e, d] =>
     match parseCfg c, parseDec s, parseDec e, parseDec d with
     | some c, some s, some e, some d =>
-      if d ≤ 0 then "bad-op" else showLabels (simTimes c id FUEL s e d (precOf s d))
+      if d ≤ 0 then "bad-op" else showLabels (simTimesC c id FUEL s e d)
     | _, _, _, _ => "bad-op"
   | ["plot", c, s, e, d] =>
     match parseCfg c, parseDec s, parseDec e, parseDec d with
     | some c, some s, some e, some d =>
-      if d ≤ 0 then "bad-op" else showLabels (plotTimes c id FUEL s e d (precOf s d))
+      if d ≤ 0 then "bad-op" else showLabels (plotTimesC c id FUEL s e d)
     | _, _, _, _ => "bad-op"
   | ["session", c, s, e, d, n] =>
     -- n calls of run_step: per call the keys of the returned dictionary, calls separated by ';'
     match parseCfg c, parseDec s, parseDec e, parseDec d, n.toNat? with
     | some c, some s, some e, some d, some n =>
       if d ≤ 0 then "bad-op" else
-      let clocks := sessionClocks c id s e d (precOf s d) n s
-      let per := clocks.map fun ck => showLabels (sessionStepKeys c id FUEL d (precOf ck d) ck)
+      let clocks := sessionClocksC c id s e d n
+      let per := clocks.map fun ck => showLabels (sessionStepKeysC c id FUEL d ck)
       let stopped := List.replicate (n - clocks.length) "stop"
       ";".intercalate (per ++ stopped)
     | _, _, _, _, _ => "bad-op"
@@ -75,7 +75,26 @@ def stepLine (line : String) : String :=
     -- memo key of the double with bit pattern h on the grid (s, d)
     match parseDec s, parseDec d, (parseHex h).bind ratOfBits with
     | some s, some d, some x =>
-      if d ≤ 0 then "bad-op" else (reprDec (memoKey id s d (precOf s d) x)).getD "not-decimal"
+      if d ≤ 0 then "bad-op" else (reprDec (memoKeyC id s d x)).getD "not-decimal"
+    | _, _, _ => "bad-op"
+  | "elem" :: s :: d :: kind :: h :: rest =>
+    -- `Model.memoize(element, x)` on a fresh memo for an element that consumes `t` (x = bit pattern of the float
+    -- the caller passed): time → the value of TIME, thr θ → IF(TIME>=θ,1,0), stock → number of Euler steps taken
+    match parseDec s, parseDec d, (parseHex h).bind ratOfBits with
+    | some s, some d, some x =>
+      if d ≤ 0 then "bad-op" else
+      let p := precOf s d
+      match kind, rest with
+      | "time", [] => ((evalElem id FUEL s d p Elem.time x).bind reprDec).getD "not-decimal"
+      | "thr", [th] =>
+        match parseDec th with
+        | some th => ((evalElem id FUEL s d p (Elem.thr th) x).bind reprDec).getD "not-decimal"
+        | none => "bad-op"
+      | "stock", [] =>
+        match evalElem id FUEL s d p Elem.stock x with
+        | some k => if k.den == 1 then toString k.num else "not-integer"
+        | none => "no-termination"
+      | _, _ => "bad-op"
     | _, _, _ => "bad-op"
   | _ => "bad-op"
 
